@@ -269,12 +269,14 @@ PROPS = {
                    'the index table MatchTail.__init__ builds for it, the dispatcher HeadersEaeter.eat, the section emission with absolute '
                    'offsets of iter_markup (relative to the eaters), and the feeding obligation of _body_read. The two searching eaters '
                    '_eat_start_boundary (relative to _eat_data) and _eat_headers (relative to a specification of its regular expression that '
-                   'is validated against the real pattern by enumeration on a bounded scope) are under contract as well; the block-wise '
-                   'delimiter search _eat_data is bounded only, so the level stays `other`.',
+                   'is validated against the real pattern by enumeration on a bounded scope) are under contract as well; of the block-wise '
+                   'delimiter search _eat_data the SOUNDNESS half is proved (a reported position is an occurrence of the delimiter in the '
+                   'stream, the expectation carried to the next chunk is true of the stream, termination); its completeness (no delimiter '
+                   'overlooked, first occurrence) is bounded only, so the level stays `other`.',
         level_note='Bounds are stated in coverage.bounded.bound.',
     ),
     'C07': dict(
-        level='other', contracts=['C07', 'collect'], frames=['class_attrs'],
+        level='other', contracts=['C07', 'collect', 'C06'], frames=['class_attrs'],
         technique='bounded run-time contract check: encode (independent RFC 7578 encoder) -> POST through Ombott.__call__ -> compare forms/files',
         explanation='BOUNDED field lists, names, contents, boundaries, thresholds and framings; proved: BytesIOProxy read/seek/tell stay inside the '
                     'window [_st,_end) of the buffered body (no byte of another part) and return exactly the window slice; _collect_multipart puts every '
@@ -287,7 +289,7 @@ PROPS = {
         level_note='Bounds are stated in coverage.bounded.bound.',
     ),
     'C12': dict(
-        level='other', contracts=['C05', 'body_read', 'C18', 'C12', 'fieldstorage', 'body_access', 'C03', 'collect', 'config'], frames=['errors_map_const'],
+        level='other', contracts=['C05', 'body_read', 'C18', 'C12', 'fieldstorage', 'body_access', 'C03', 'collect', 'config', 'C06'], frames=['errors_map_const'],
         technique='bounded run-time contract check of grammar-mutated bodies through Ombott.__call__ (status class, delivered fields complete); '
                   'proved exception frames of _iter_chunked, _body_read, _body, _raise, _get_body_string, json, POST, FieldStorage.read; termination of the readers and of parse_qsl',
         explanation='BOUNDED grammar mutations, truncations, byte mutations, small-scope bodies; proved: _iter_chunked raises only BodyParsingError, '
